@@ -167,6 +167,7 @@ def run_path(task):
         run = Run(decisions, job_name=job["id"], known_findings=task.get("known_findings"),
                   ob_timeout_ms=task.get("ob_timeout_ms", 30000))
         run.safety_known = cfg.get("safety_known", {})
+        run.sample_smt = task.get("keep_smt") or False
         interp = Interp(world, run, cfg)
         try:
             if job["kind"] == "harness":
